@@ -26,17 +26,17 @@ var (
 
 // Spec is a scenario with its bounds per tier (Unbounded = explore without a preemption bound).
 type Spec struct {
-	Sc            Scenario
-	Quick         int
-	Thorough      int
-	Heavy         bool // gets a larger share of the deadline
-	ThoroughOnly  bool // not explored on the quick tier
+	Sc           Scenario
+	Quick        int
+	Thorough     int
+	Heavy        bool // gets a larger share of the deadline
+	ThoroughOnly bool // not explored on the quick tier
 }
 
 type workerOut struct {
-	Result Result `json:"result"`
-	Replays int   `json:"replays"`
-	Error  string `json:"error,omitempty"`
+	Result  Result `json:"result"`
+	Replays int    `json:"replays"`
+	Error   string `json:"error,omitempty"`
 }
 
 // Main is the entry point of every E1 harness: parent mode shards scenarios over worker
@@ -44,6 +44,9 @@ type workerOut struct {
 func Main(id string, specs []Spec, assumptions []string, rule string) {
 	core.Controlled = true
 	r := common.Start(id, "model_checking")
+	for _, k := range r.KnownSignatures() {
+		KnownSigs[k] = true
+	}
 	if *workerFlag >= 0 {
 		worker(specs[*workerFlag], *boundFlag, time.Now().Add(time.Duration(*secsFlag)*time.Second))
 		return
@@ -147,6 +150,9 @@ func Main(id string, specs []Spec, assumptions []string, rule string) {
 		}
 		if res.SampleHist != "" && k%5 == 0 {
 			r.SampleL(res.Scenario, res.SampleHist)
+		}
+		for _, v := range res.Known {
+			r.Violation(v.Sig+"|"+scenarioClass(v.Scenario), v.What+fmt.Sprintf("\n  scenario %s, %d preemption(s), schedule %v", v.Scenario, v.Preempt, v.Schedule), v, "")
 		}
 		if v := res.Violation; v != nil {
 			r.Violation(v.Sig+"|"+scenarioClass(v.Scenario), v.What+fmt.Sprintf("\n  scenario %s, %d preemption(s), schedule %v, history:\n%s", v.Scenario, v.Preempt, v.Schedule, FormatHistory(v.History)), v, "")
